@@ -1,3 +1,6 @@
+(* STATUS NOTE (third session): remarks of the form "NOT PROVED" in the comments below were written when the first theorems of this
+   file were stated; theorems added further down in this file supersede them.  The current status of the property is the row of
+   DESIGN.md section 14.4; the premises that remain are listed in DESIGN.md section 14.9. *)
 (* C11 — Slot names do not matter: behaviour is equivariant under renaming.
    PROVED: the specified congruence is equivariant: renaming every slot name of all asserted
    equations and of the queried terms through a map that is injective on user names (and leaves the
